@@ -1063,7 +1063,9 @@ import pathlib
 import posixpath
 import re
 
-_PURE_FUNCS = {pathlib.Path, pathlib.PurePosixPath, pathlib.PurePath, pathlib.PosixPath, os.fspath, os.path.join,
+import platform as _platform
+
+_PURE_FUNCS = {_platform.python_implementation, _platform.system, pathlib.Path, pathlib.PurePosixPath, pathlib.PurePath, pathlib.PosixPath, os.fspath, os.path.join,
                os.path.basename, os.path.dirname, re.match, re.compile, os.path.splitext, os.path.isabs, os.path.normpath, posixpath.join,
                str.startswith, str.endswith}
 _PURE_PATH_METHODS = {"as_posix", "joinpath", "is_absolute", "relative_to", "with_name", "with_suffix", "__str__",
